@@ -22,9 +22,87 @@ import (
 //	{"t":"m","v":{key:Val}}         response object (only in responses)
 type Val = map[string]interface{}
 
-func S(v interface{}) Val { return Val{"t": "s", "v": v} }
-func Z() Val              { return Val{"t": "z"} }
-func R(id string) Val     { return Val{"t": "r", "id": id} }
+// S is a scalar value.  It travels as a string plus a type tag ("s", "i", "b", "f"): TLC refuses to compare a
+// string with a number or a boolean, and a response may well carry a value of another type than the reference.
+func S(v interface{}) Val {
+	switch x := v.(type) {
+	case bool:
+		return Val{"t": "s", "v": fmt.Sprint(x), "y": "b"}
+	case int:
+		return Val{"t": "s", "v": fmt.Sprint(x), "y": "i"}
+	case int64:
+		return Val{"t": "s", "v": fmt.Sprint(x), "y": "i"}
+	case float64:
+		if x == float64(int64(x)) {
+			return Val{"t": "s", "v": fmt.Sprint(int64(x)), "y": "i"}
+		}
+		return Val{"t": "s", "v": fmt.Sprint(x), "y": "f"}
+	case string:
+		return Val{"t": "s", "v": x, "y": "s"}
+	}
+	return Val{"t": "s", "v": fmt.Sprint(v), "y": "s"}
+}
+
+// ScalarGo is the Go (JSON) value of a scalar Val.
+func ScalarGo(v Val) interface{} {
+	y, _ := v["y"].(string)
+	sv, isStr := v["v"].(string)
+	if y == "" || !isStr {
+		return v["v"] // a value written before the type tag existed
+	}
+	switch y {
+	case "b":
+		return sv == "true"
+	case "i":
+		n, _ := strconv.Atoi(sv)
+		return n
+	case "f":
+		f, _ := strconv.ParseFloat(sv, 64)
+		return f
+	}
+	return sv
+}
+
+// Retag brings values written before the type tag existed (pinned cases) to the current encoding.
+func Retag(v interface{}) interface{} {
+	switch x := v.(type) {
+	case map[string]interface{}:
+		if t, _ := x["t"].(string); t == "s" {
+			if _, has := x["y"]; !has {
+				return map[string]interface{}(S(x["v"]))
+			}
+			return x
+		}
+		out := map[string]interface{}{}
+		for k, e := range x {
+			out[k] = Retag(e)
+		}
+		return out
+	case []interface{}:
+		out := make([]interface{}, len(x))
+		for i, e := range x {
+			out[i] = Retag(e)
+		}
+		return out
+	}
+	return v
+}
+
+// RetagWorld applies Retag to the data of a world (entities and root values).
+func (w *World) RetagWorld() {
+	for _, e := range w.Ents {
+		for k, v := range e.F {
+			e.F[k] = Retag(map[string]interface{}(v)).(map[string]interface{})
+		}
+	}
+	for _, fs := range w.Roots {
+		for k, v := range fs {
+			fs[k] = Retag(map[string]interface{}(v)).(map[string]interface{})
+		}
+	}
+}
+func Z() Val          { return Val{"t": "z"} }
+func R(id string) Val { return Val{"t": "r", "id": id} }
 func L(vs ...Val) Val {
 	out := make([]interface{}, len(vs))
 	for i, v := range vs {
@@ -47,8 +125,8 @@ type ArgExpr = map[string]interface{}
 type TypeRef struct {
 	Name   string `json:"ty"`
 	List   bool   `json:"list"`
-	NN     bool   `json:"nn"`  // the field (or the list) is non-null
-	ElemNN bool   `json:"enn"` // list elements are non-null
+	NN     bool   `json:"nn"`    // the field (or the list) is non-null
+	ElemNN bool   `json:"enn"`   // list elements are non-null
 	List2  bool   `json:"list2"` // a list of lists: [[T]] (the inner lists are nullable)
 }
 
@@ -574,10 +652,7 @@ func TagJSON(v interface{}) Val {
 		}
 		return Val{"t": "l", "v": out}
 	case float64:
-		if x == float64(int64(x)) {
-			return S(int64(x))
-		}
-		return S(fmt.Sprintf("%v", x))
+		return S(x)
 	default:
 		return S(x)
 	}
